@@ -48,14 +48,20 @@ theorem asmUnquote_plain (s : Bytes) (h : s.head? ≠ some 34) : asmUnquote s = 
 
 /-- the identifier body printed after the sigil by GlobalName / LocalName -/
 def nameBody (n : Bytes) : Bytes :=
-  match parseUint64 n with
-  | some _ => 34 :: (n ++ [34])
-  | none => escapeIdent n
+  if allDigits n then 34 :: (n ++ [34]) else escapeIdent n
 
 theorem globalName_eq (n : Bytes) : globalName n = 64 :: nameBody n := by
-  unfold globalName nameBody; cases parseUint64 n <;> rfl
+  unfold globalName nameBody; cases allDigits n <;> rfl
 theorem localName_eq (n : Bytes) : localName n = 37 :: nameBody n := by
-  unfold localName nameBody; cases parseUint64 n <;> rfl
+  unfold localName nameBody; cases allDigits n <;> rfl
+
+theorem allDigits_of_parseUint63 (n : Bytes) (v : Nat) (h : parseUint63 n = some v) : allDigits n = true := by
+  unfold parseUint63 at h
+  by_cases h1 : n.isEmpty = true
+  · simp [h1] at h
+  · by_cases h2 : n.all isDigit = true
+    · simp [allDigits, h1, h2]
+    · simp [h1, h2] at h
 
 theorem digits_no_backslash (n : Bytes) (h : n.all isDigit = true) : ∀ b ∈ n, b ≠ 92 := by
   intro b hb hc
@@ -66,21 +72,16 @@ theorem digits_no_backslash (n : Bytes) (h : n.all isDigit = true) : ∀ b ∈ n
     (all byte values, any length; quoting and \XX escapes included) — never a numeric ID. -/
 theorem decode_nameBody (n : Bytes) (hne : n ≠ []) : decodeIdentBody (nameBody n) = .name n := by
   unfold nameBody
-  cases hu : parseUint64 n with
-  | some v =>
-    simp only
+  cases hu : allDigits n with
+  | true =>
+    simp only [if_true]
     unfold decodeIdentBody
     rw [parseUint63_none_of_quote, asmUnquote_quoted]
     have hd : n.all isDigit = true := by
-      unfold parseUint64 at hu
-      by_cases h1 : n.isEmpty = true
-      · simp [h1] at hu
-      · by_cases h2 : n.all isDigit = true
-        · exact h2
-        · simp [h1, h2] at hu
+      simp only [allDigits, Bool.and_eq_true] at hu; exact hu.2
     rw [unescape_no_backslash n (digits_no_backslash n hd)]
-  | none =>
-    simp only
+  | false =>
+    simp only [Bool.false_eq_true, if_false]
     unfold escapeIdent
     by_cases ht : (n.all inTail && !digitLedJunk n) = true
     · simp only [ht, if_true]
@@ -98,7 +99,7 @@ theorem decode_nameBody (n : Bytes) (hne : n ≠ []) : decodeIdentBody (nameBody
       cases hp : parseUint63 n with
       | none => simp [asmUnquote_plain n hq]
       | some id =>
-        have := parseUint64_of_parseUint63 n id hp
+        have := allDigits_of_parseUint63 n id hp
         rw [hu] at this; cases this
     · simp only [ht, if_false, Bool.false_eq_true]
       unfold decodeIdentBody
